@@ -3,7 +3,7 @@
 cd /verif || exit 1
 git merge --no-ff "$1" -m "$2" >/dev/null 2>&1
 git rm -q --cached lean/Driver/Main.lean 2>/dev/null; rm -f lean/Driver/Main.lean
-for f in evidence/C08.json evidence/C06.json MANIFEST.json lean/lakefile.toml; do
+for f in evidence/C*.json MANIFEST.json lean/lakefile.toml DESIGN.md; do
   if git status --short "$f" | grep -q "^[UAD][UAD]"; then git checkout --ours "$f" 2>/dev/null; git add "$f"; fi
 done
 if git status --short known_findings.json | grep -q "^UU"; then python3 tools/merge_kf.py "$1"; git add known_findings.json; fi
